@@ -128,6 +128,13 @@ func (h resumeHarness) Gen(r *verifsim.SplitMix, tier string, idx int) any {
 			sp.Damage = append(sp.Damage, txDamage{Kind: damageKinds[r.Intn(len(damageKinds))], File: r.Intn(8), Arg: r.Intn(1 << 20)})
 		}
 	}
+	if h.prop == "C06" && len(sp.Chain) >= 1 && r.Chance(1, 6) {
+		// the damage happens between two interrupted runs: the second one (killed at a
+		// file-system point) meets it first, the final run meets what that one left
+		sp.Chain = append(sp.Chain[:1], txLink{Seed: r.Next(), Crash: &verifsim.CrashPlan{Node: "R", Kind: "fs", N: -1 - r.Intn(1000)}})
+		sp.DamageAfter = 1
+		sp.Damage = []txDamage{{Kind: []string{"data_deleted", "data_shortened", "data_deleted"}[r.Intn(3)], File: r.Intn(8)}}
+	}
 	if h.prop == "C06" && r.Chance(1, 6) {
 		// a stale sidecar that sits only at the fallback location: data file deleted or shortened
 		f := r.Intn(8)
@@ -277,6 +284,8 @@ func relToSpecPath(sp *txSpec, rel string) string {
 }
 
 type chainResult struct {
+	damaged      []string
+	damagedEarly bool
 	eps        []*epResult
 	final      *epResult
 	c05        []string
@@ -357,6 +366,16 @@ func runChain(sp *txSpec, src, out string, enumN int) (cr chainResult) {
 		cr.eps = append(cr.eps, ep)
 		for _, b := range installedBroken {
 			cr.c05 = append(cr.c05, fmt.Sprintf("%s (link %d)", b, li))
+		}
+		if sp.Prop == "C06" && sp.DamageAfter == li+1 && li+1 < len(sp.Chain) {
+			// the stored state is damaged between two interrupted runs
+			tornChunks = nil
+			for _, d := range sp.Damage {
+				if k := applyDamage(sp, out, ep.manifest, d); k != "" {
+					cr.damaged = append(cr.damaged, k)
+				}
+			}
+			cr.damagedEarly = true
 		}
 		if ep.outcome != verifsim.Finished {
 			cr.skipped = "interrupted run hung (C02/C03's business): " + hangSignature(ep)
@@ -737,8 +756,16 @@ func (h resumeHarness) Run(spec any) (res verifsim.RunResult) {
 		m := last.manifest
 		// C06: damage the stored state between the runs
 		var damaged []string
-		tornChunks = nil
-		if h.prop == "C06" {
+		if !cr.damagedEarly {
+			tornChunks = nil
+		}
+		if h.prop == "C06" && cr.damagedEarly {
+			damaged = cr.damaged
+			for _, k := range damaged {
+				res.Counters["damage_applied_between_runs:"+k]++
+			}
+		}
+		if h.prop == "C06" && !cr.damagedEarly {
 			for _, d := range sp.Damage {
 				if k := applyDamage(&sp, out, m, d); k != "" {
 					damaged = append(damaged, k)
